@@ -1,7 +1,10 @@
 """C14 — C++ back end: conformance and sanitizer-clean validation of arbitrary bytes.
 
-Proof:  Pdlv/Thm/C14.lean — the reference (Pdlv.Ref) with its spec lemmas; size = length of the
-        reference encoding for root packets and structs.
+Proof:  Pdlv/Thm/C14_cxx.lean — the model of the parsers cxx.rs emits (Pdlv.Cxx: struct Parse, view Parse + getters,
+        slice accessor assertions, C++ integer arithmetic of count products, padding) refines the reference decoder on
+        the class Cxx.wfBody: same acceptance, values and remainder, and no failed assertion, for every byte string
+        (struct_parser_agrees_with_reference, struct_parser_no_undefined_behaviour); the recorded deviations as
+        theorems about the model.  Pdlv/Thm/C14.lean — the reference (Pdlv.Ref) with its spec lemmas.
 Tie:    the module emitted by the pdlc built from /repo is imported in a child process (both
         endiannesses); serialize() vs Ref.encode, parse_all(serialize(v)) vs v, parse_all(b) vs the
         reference decoder on reference encodings, single-fault mutants, all prefixes and random strings;
@@ -239,10 +242,26 @@ def main(argv):
                 mcs = be.model(i, T, [{"k": ("cxxdec" if is_struct else "cxxview"), "hex": s.hex()} for _, s in uniq])
                 if not isinstance(mcs, list):
                     mcs = None
+            # theorems struct_parser_agrees_with_reference / struct_parser_no_undefined_behaviour: their hypotheses on this
+            # layout (decidable), and the statements evaluated on every input of the run
+            in_class = False
+            if mcs is not None and is_struct:
+                hyp = be.model(i, T, [{"k": "len", "v": {}}])
+                in_class = bool(isinstance(hyp, list) and hyp[0].get("cxxwf") and hyp[0].get("decwf"))
+                run.hist("theorem_hypotheses", "Cxx.wfBody&decWfBody:%s" % in_class)
             for n_s, ((kind, s), m) in enumerate(zip(uniq, mo)):
                 r = be.ask(i, T, "dec", s.hex())
                 if mcs is not None:
                     compare_with_model(run, d, T, s, kind, r, mcs[n_s], is_struct, tags)
+                if in_class:
+                    mc = mcs[n_s]
+                    run.count("theorem_instances")
+                    same = (mc.get("r") == "ok") == (m.get("r") == "ok") and mc.get("r") != "panic" and \
+                        (mc.get("r") != "ok" or (W.canon(mc.get("value")) == W.canon(m.get("value")) and mc.get("rest") == m.get("rest")))
+                    if not same:
+                        run.violation("corr", "theorem struct_parser_agrees_with_reference contradicted by evaluation on %s %s (model bug)" % (T, s.hex()[:40]),
+                                      {"pdl": d["text"], "type": T, "input_hex": s.hex(), "model_of_emitted_code": mc, "reference": m,
+                                       "corr": "thm:struct_parser_agrees_with_reference"}, found_input=False)
                 run.case((d["text"], T, s))
                 run.hist("dec_outcomes", str(r.get("r")) + (":" + str(r.get("e")) if r.get("r") in ("err", "exception") else ""))
                 rep = {"pdl": d["text"], "type": T, "input_hex": s.hex(), "kind": kind, "cxx": r, "reference": m}
